@@ -17,6 +17,9 @@ struct Context__MemorySlot g_decl[DECL_MAX + 1], g_rt[RT_MAX + 1]; unsigned long
 #define IS_DECL(v) ((const void *)(v) == (const void *)&g_decl_ctx._storage_pool)
 #define IS_RT(v) ((const void *)(v) == (const void *)&g_rt_ctx._storage_pool)
 /* ---- ASSUMED model of the two std::vector<MemorySlot> ---- */
+#ifndef G2C_HAVE_vslot_citerator   /* the iterator type exists in the generated header only if the code uses it */
+struct vslot_citerator { struct Context__MemorySlot *p; };
+#endif
 unsigned long _ZNKSt6vectorIN4bloc7Context10MemorySlotESaIS2_EE4sizeEv(const struct vec_MemorySlot *this)
 { __CPROVER_assert(IS_DECL(this) || IS_RT(this), "model: one of the two symbol tables"); return IS_DECL(this) ? g_decl_len : g_rt_len; }
 struct Context__MemorySlot *_ZNSt6vectorIN4bloc7Context10MemorySlotESaIS2_EEixEm(struct vec_MemorySlot *this, unsigned long n)
@@ -24,6 +27,13 @@ struct Context__MemorySlot *_ZNSt6vectorIN4bloc7Context10MemorySlotESaIS2_EEixEm
   __CPROVER_assert(IS_RT(this), "model: only the runtime table is indexed");
   __CPROVER_assert(n < g_rt_len, "std::vector<MemorySlot>::operator[]: index within size() (undefined behaviour otherwise)");
   return &g_rt[n];
+}
+/* const operator[]: either table, by position (an index loop over the declared table is as good as an iterator loop) */
+const struct Context__MemorySlot *_ZNKSt6vectorIN4bloc7Context10MemorySlotESaIS2_EEixEm(const struct vec_MemorySlot *this, unsigned long n)
+{
+  __CPROVER_assert(IS_DECL(this) || IS_RT(this), "model: one of the two symbol tables");
+  __CPROVER_assert(n < (IS_DECL(this) ? g_decl_len : g_rt_len), "std::vector<MemorySlot>::operator[] const: index within size() (undefined behaviour otherwise)");
+  return IS_DECL(this) ? &g_decl[n] : &g_rt[n];
 }
 struct vslot_citerator _ZNKSt6vectorIN4bloc7Context10MemorySlotESaIS2_EE5beginEv(const struct vec_MemorySlot *this)
 { struct vslot_citerator it; __CPROVER_assert(IS_DECL(this), "model: only the declared table is iterated"); *(void **)&it = (void *)&g_decl[0]; return it; }
